@@ -33,6 +33,8 @@ PROGRAMS = {
     'slow': "a = 1\nb = a + 1\nprint('done', b)\n",
     # swallows the interruption once and then ends normally - possibly while a later execution is running
     'swallow_once': "try:\n    while spin():\n        pass\nexcept BaseException:\n    pass\nz = 1\n",
+    # closes the captured stream and then hangs
+    'close_then_spin': "import sys\nprint('x')\nsys.stdout.close()\nwhile spin():\n    pass\n",
     # ends with its own exception at the last moment
     'slow_error': "a = 1\nprint('hello')\nb = a / 0\n",
 }
@@ -145,6 +147,9 @@ def make_body(programs, k_join, filtered):
 
         if err is not None:
             fail('exception escapes the timed-out call', exception=type(err).__name__, message=str(err)[:120])
+            if leaked:
+                # whichever way the call ends -- raising included -- what it patched must be restored
+                fail('patch state not clean after the timed-out call raised', leaked=leaked, exception=type(err).__name__)
             return
         if err2 is not None:
             fail('exception escapes a later execution', exception=type(err2).__name__, message=str(err2)[:120])
